@@ -63,8 +63,7 @@ def Raw.toRes (r : Raw) (f1 f2 : Q3 → Q3) : Option Res :=
   | .bad => none
 
 /-! ### shapes on the wire -/
-def pshape3 : P Sh := do
-  let k ← tok
+def pshapeCore3 (k : String) : P Sh := do
   match k with
   | "ball" => do let r ← pf; pure (.ball (q r))
   | "cuboid" => do let h ← pv3; pure (.cuboid (q3 h))
@@ -77,8 +76,13 @@ def pshape3 : P Sh := do
   | "halfspace" => do let n ← pv3; pure (.halfspace (q3 n))
   | _ => failure
 
-def pshape2 : P Sh := do
+/-- `round <inner shape> <border radius>` or a plain shape -/
+def pshape3 : P Sh := do
   let k ← tok
+  if k = "round" then do let k2 ← tok; let i ← pshapeCore3 k2; let r ← pf; pure (.round i (q r))
+  else pshapeCore3 k
+
+def pshapeCore2 (k : String) : P Sh := do
   match k with
   | "ball" => do let r ← pf; pure (.ball (q r))
   | "cuboid" => do let h ← pv2; pure (.cuboid (emb (q2 h)))
@@ -88,6 +92,11 @@ def pshape2 : P Sh := do
   | "convex" => do let ps ← plist pv2; pure (.polygon (ps.map fun p => emb (q2 p)))
   | "halfspace" => do let n ← pv2; pure (.halfspace (emb (q2 n)))
   | _ => failure
+
+def pshape2 : P Sh := do
+  let k ← tok
+  if k = "round" then do let k2 ← tok; let i ← pshapeCore2 k2; let r ← pf; pure (.round i (q r))
+  else pshapeCore2 k
 
 /-- tail of an end-to-end output: `H <raw> C <n> pts…` (hint result for `max_dist = MAX`, candidate overlap points) -/
 def ptail (dim3 : Bool) : P (Raw × List Q3) := do
@@ -167,6 +176,58 @@ def oracleDistWorld (dim3 : Bool) (a o : List String) : String :=
     | some (x, (h, pts)) =>
       if !okF x then s!"fail route={A.sh.kind}x{B.sh.kind} non-finite-distance" else
       judgeDist A B (q x) (hintsOf h id id) pts (!dim3)
+
+/-! ### histories: ONE `VoronoiSimplex` reused by a sequence of `*_support_map_support_map_with_params` queries -/
+
+/-- one step of a history: `d` = `distance_…_with_params`, `c <max_dist>` = `closest_points_…_with_params`;
+shape 1 in its local frame, shape 2 placed by `pos12`; both witnesses are reported in the frame of shape 1 -/
+structure HStep where
+  isDist : Bool
+  maxDist : Rat
+  A : Placed
+  B : Placed
+
+def phstep (dim3 : Bool) : P HStep := do
+  let op ← tok
+  let (isD, m) ← (if op = "d" then pure (true, (0 : Rat)) else if op = "c" then do let m ← pf; pure (false, q m) else failure)
+  if dim3 then do
+    let s1 ← pshape3; let s2 ← pshape3; let p ← piso3
+    pure ⟨isD, m, ⟨s1, Aff.identity⟩, ⟨s2, Aff.ofIso3 (qiso3 p)⟩⟩
+  else do
+    let s1 ← pshape2; let s2 ← pshape2; let p ← piso2
+    pure ⟨isD, m, ⟨s1, Aff.identity⟩, ⟨s2, Aff.ofIso2 (qiso2 p)⟩⟩
+
+def judgeHStep (dim3 : Bool) (st : HStep) : P String := do
+  if st.isDist then do
+    let t ← tok
+    let tl ← ptail dim3
+    match FloatIO.ofHex? t with
+    | none => pure (if t = "U" then "skip unsupported-pair" else s!"fail route={st.A.sh.kind}x{st.B.sh.kind} non-finite-distance")
+    | some x =>
+      if !okF x then pure s!"fail route={st.A.sh.kind}x{st.B.sh.kind} non-finite-distance" else
+      pure (judgeDist st.A st.B (q x) (hintsOf tl.1 id st.B.pose.act) tl.2 (!dim3))
+  else do
+    let r ← praw dim3
+    let tl ← ptail dim3
+    match r.toRes id id with
+    | none => pure s!"fail route={st.A.sh.kind}x{st.B.sh.kind} non-finite-witness"
+    | some res => pure (judgeCP st.A st.B st.maxDist res (hintsOf tl.1 id st.B.pose.act) tl.2 (!dim3))
+
+/-- every step of the history is judged like a fresh query (history independence): first failure wins -/
+def oracleHistory (dim3 : Bool) (a o : List String) : String :=
+  match run (plist (phstep dim3)) a with
+  | none => "skip bad-args"
+  | some steps =>
+    let rec go (i : Nat) (sts : List HStep) (o : List String) (passed : Nat) : String :=
+      match sts with
+      | [] => if passed > 0 then s!"pass steps={passed}" else "skip no-step-judged"
+      | st :: rest =>
+        match (judgeHStep dim3 st) o with
+        | none => "fail unparsable-output"
+        | some (v, o') =>
+          if v.startsWith "fail" then s!"{v} step={i}"
+          else go (i + 1) rest o' (if v.startsWith "pass" then passed + 1 else passed)
+    go 0 steps o 0
 
 /-! ### closed-form oracles -/
 
@@ -346,6 +407,8 @@ def handler (fn : String) : Option Handler :=
   | "cpl2" => some { model := fun _ => some "oracle-only", oracle := oracleCPLocal false }
   | "dist3" => some { model := fun _ => some "oracle-only", oracle := oracleDistWorld true }
   | "dist2" => some { model := fun _ => some "oracle-only", oracle := oracleDistWorld false }
+  | "gjkh3" => some { model := fun _ => some "oracle-only", oracle := oracleHistory true }
+  | "gjkh2" => some { model := fun _ => some "oracle-only", oracle := oracleHistory false }
   | _ => none
 
 end C01
